@@ -188,6 +188,39 @@ def run(run: Run):
                     run.violation(f"honest proof with aggregation factor {m} refused ({group}, {where}, mode {md}): {res[:100]}", rp)
                 elif not want_ok and cls == "ok":
                     run.violation(f"hostile proof '{name}' accepted (aggregation factor {m}, {where}, mode {md})", rp)
+    # batches that span several internal chunks of 256 with MIXED aggregation factors (whatever is computed once per batch — the largest member, its
+    # index, the padding — must be right for every chunk): all-honest, and with one hostile member in the second chunk; release builds
+    rngm = random.Random(f"c16multi:{run.seed}")
+    one = gen.mk_member(rngm, 2, 1, cap=4, T=1)
+    two = gen.mk_member(rngm, 2, 2, cap=4, T=1)
+    four = gen.mk_member(rngm, 2, 4, cap=4, T=1)
+    v1, v2, v4 = gen.vmember(one, 0), gen.vmember(two, 1), gen.vmember(four, 2)
+    layouts = [("largest first", [v2] + [v1] * 256), ("largest last", [v1] * 256 + [v2]), ("largest at 255", [v1] * 255 + [v4] + [v1] * 3), ("largest at 256", [v1] * 256 + [v4, v1])]
+    if run.tier != "quick":
+        layouts += [("two chunks of singles then mixed", [v1] * 512 + [v2, v4, v1]), ("largest in the middle chunk", [v1] * 300 + [v4] + [v1] * 300)]
+    mverifies, mtags = [], []
+    for name, vm in layouts:
+        for md in ("VerifyOnly", "RecoverAndVerify", "RecoverOnly"):
+            mverifies.append({"mode": md, "vmembers": vm, "log": False}); mtags.append((name, md, True))
+        bad = list(vm)
+        bad[len(bad) - 1] = gen.vmember(one, 3)
+        mverifies.append({"mode": "VerifyOnly", "vmembers": bad, "log": False}); mtags.append((name + ", hostile last member", "VerifyOnly", False))
+    mspec = {"id": "c16-multichunk", "members": [one, two, four], "derived": [{"from": 0, "ops": [{"op": "dup_round", "idx": 0}]}], "verifies": mverifies, "with_gens": False,
+             "log_merlin": False, "log_msm": False}
+    for group in ("fm", "ristretto"):
+        o = run_harness(["session", group], [dict(sessions.strip(mspec), group=group)], profile="release")[0]
+        for vi, ((name, md, want_ok), vo) in enumerate(zip(mtags, o["verifies"])):
+            res = vo["result"]
+            cls = res.split(":")[0]
+            run.count(["c16multi", group, name, md, cls], {"group": group, "layout": name, "mode": md, "members": len(mverifies[vi]["vmembers"]), "result": res[:60]})
+            run.bump(f"multi-chunk mixed batches/{group}")
+            rp = {"kind": "session", "spec": dict(sessions.strip(mspec), group=group), "verify": vi, "profile": "release"}
+            if cls == "panic":
+                run.violation(f"verification panicked (release, {group}; batch of {len(mverifies[vi]['vmembers'])} with mixed aggregation, {name}, mode {md}): {res[:160]}", rp)
+            elif want_ok and cls != "ok":
+                run.violation(f"honest multi-chunk batch with mixed aggregation refused ({group}, {name}, mode {md}): {res[:100]}", rp)
+            elif not want_ok and cls == "ok":
+                run.violation(f"hostile member accepted in a multi-chunk batch ({name})", rp)
     # the decoder on arbitrary strings, debug and release
     strs = random_strings(run)
     for profile in ("debug", "release"):
@@ -248,7 +281,7 @@ def run(run: Run):
         "proof",
         "hostile proofs (round counts 1..70 and hundreds/thousands, every extension tag and d1 length, identity / undecodable / unrelated points at each kind of position, boundary and "
         "non-canonical scalars) alone, at position >= 1 and in the middle of mixed batches, against matching and mismatching statements, ill-formed batch shapes (0-3 mismatched "
-        "lengths, mixed bits / T / aggregation, aggregation factors of 512 (thorough: 256..1024) commitments per statement), in the three modes, in debug (overflow-checked) and release builds over Ristretto and the free-module group; arbitrary byte strings "
+        "lengths, mixed bits / T / aggregation, batches of 257-260 (thorough: 600) members with mixed aggregation factors across the internal chunks, aggregation factors of 512 (thorough: 256..1024) commitments per statement), in the three modes, in debug (overflow-checked) and release builds over Ristretto and the free-module group; arbitrary byte strings "
         "through the decoder; any panic, abort, acceptance of a hostile proof or call above 20 s is a violation; the model predicts Ok/Err and the three-valued model value / error / panic; outside the property's scope, statements written through their public fields (promise count != commitment count) tie the PANIC branch of the three-valued model to the back end's length assertions; distinct by "
         "(profile, group, bits, m, T, hostile kind, placement, mode, outcome)",
         ["time proportional to input size is checked as an absolute ceiling on inputs of a few KiB"],
